@@ -100,6 +100,38 @@ def family(tier):
     c.herald(0, 0)
     c.herald(1, 2, 1)
     out.append(("heralds only", c))
+    # 4. degenerate but constructible components: barrier over no modes / one mode, empty swap dictionary, identity-like values, 1x1 unitary
+    def deg(label, build, n=3):
+        c = lw.Circuit(n)
+        c.bs(0)
+        build(c)
+        c.bs(n - 2)
+        out.append((f"degenerate: {label}", c))
+    deg("barrier([])", lambda c: c.barrier([]))
+    deg("barrier([1])", lambda c: c.barrier([1]))
+    deg("mode_swaps({})", lambda c: c.mode_swaps({}))
+    deg("mode_swaps identity entries", lambda c: c.mode_swaps({0: 0, 1: 2, 2: 1}))
+    deg("loss 0 and loss 1", lambda c: (c.loss(0, 0), c.loss(1, 1)))
+    deg("reflectivity 0 and 1", lambda c: (c.bs(0, reflectivity=0), c.bs(1, reflectivity=1)))
+    deg("1x1 unitary", lambda c: c.add(lw.Unitary(np.array([[1j]])), 2))
+    deg("phase 0", lambda c: c.ps(1, 0))
+
+    def grp_empty_barrier(c):
+        g = lw.Circuit(2)
+        g.barrier([])
+        g.ps(0, 1)
+        c.add(g, 1, group=True, name="g")
+    deg("group with barrier([])", grp_empty_barrier)
+
+    def empty_group(c):
+        c.add(lw.Circuit(2), 0, group=True, name="empty")
+    deg("empty group", empty_group)
+
+    def herald_empty_barrier(c):
+        c.herald(2, 0)
+        c.barrier([])
+        c.barrier()
+    deg("herald then barriers", herald_empty_barrier, n=4)
     return out
 
 
@@ -115,15 +147,19 @@ def check_family(tier, shard, nshards):
     for label, c in fam:
         before = snapshot(c)
         m = c.n_modes - len(c._internal_modes)      # displayed mode lines: all modes except the private ancillas of heralded sub-circuits
+        shared = [f"m{i}" for i in range(m)]          # ONE label list reused for every call: displaying must not change the caller's list
         for dt, loss, vals, labels in itertools.product(("svg", "mpl"), (False, True), (False, True), (None, "ok")):
             n += 1
-            ml = None if labels is None else [f"m{i}" for i in range(m)]
+            ml = None if labels is None else shared
             try:
                 r = Display(c, display_loss=loss, mode_labels=ml, display_type=dt, show_parameter_values=vals)
                 if dt == "mpl":
                     plt.close(r[0])
             except Exception as e:  # noqa: BLE001
                 fails.append((dict(circuit=label, display_type=dt, display_loss=loss, show_parameter_values=vals, labels=labels), f"raised {type(e).__name__}: {e}"))
+            if shared != [f"m{i}" for i in range(m)]:
+                fails.append((dict(circuit=label, display_type=dt, labels=labels), f"display changed the caller's mode_labels list to {shared}"))
+                shared = [f"m{i}" for i in range(m)]
         if snapshot(c) != before:
             fails.append((dict(circuit=label), "display changed the circuit"))
         # wrong label counts / unknown type
